@@ -18,8 +18,8 @@ func balBytes(b *big.Int) []byte { return b.Bytes() } // minimal big-endian, emp
 func checkC13(sc *Scenario, st *Stats) *Violation {
 	an, bad := analyseJP(sc, ArtelaOpts{})
 	if bad != "" {
-		st.Exclude("panic-or-unbalanced(C03/C18)")
-		return nil
+		// no frame analysis is possible: the VM panicked or its event stream is not well nested
+		return violf("panic-or-unbalanced", "%.1500s", bad)
 	}
 	evs := an.art.Rec.Evs
 	// expected[account][index] = collapsed sequence of observed balances
